@@ -34,7 +34,12 @@ class _Scripted:
 
     def sample(self, *a, **kw):
         self.calls += 1
-        return self._s(jnp.asarray(self.q.pop(0), dtype=self.dtype))
+        v = jnp.asarray(self.q.pop(0), dtype=self.dtype)
+        if self.real is D.uniform and len(a) >= 2:
+            # the script is the standard-uniform quantile of the draw: the bounds the code asks for matter
+            lo, hi = jnp.asarray(a[0], dtype=self.dtype), jnp.asarray(a[1], dtype=self.dtype)
+            v = lo + (hi - lo) * v
+        return self._s(v)
 
     def logpdf(self, *a, **k):
         return self.real.logpdf(*a, **k)
